@@ -16,6 +16,8 @@ from mc.fakes import FakeResponse, patched_http
 
 ID = 'C28'
 LEVEL = 'fault_enumeration'
+LEVEL_TEXT = ('the rotation state is one integer modulo n; every outcome sequence up to a length well beyond n is enumerated for n = 1..4 and for '
+              'every entry point (raw request, get/post, the ShellQuery layer incl. streaming monitors), so every reachable behaviour is decided')
 RULE = ('every outcome sequence of length L over {ok,404,500-permanent,ConnectionError} x n in 1..4 nodes x '
         'entry in {request, get, post, the ShellQuery layer alternating monitor streams and GETs}; non-trivial = sequence with at least one failure followed by a later request '
         '(distinct by (n, sequence))')
